@@ -237,6 +237,20 @@ func runFutureScenario(rec *futRecorder, rnd *rand.Rand, body string, determinis
 		once.Do(func() { close(release) })
 		op(1, "deref", "@f", ctx)
 		op(1, "done?", "(future-done? f)", ctx)
+		// the outcome is available now: readers whose context has ended may or may not get it, but they never
+		// take it away from the readers that come after them ("every deref ... returns the same value")
+		for i := 0; i < 64; i++ {
+			rec.emit(FutEvent{Ev: "inv", Tid: 1, Op: "deref"})
+			v, oe := fv.(*concurrent.Future).Deref(dead)
+			rec.emit(FutEvent{Ev: "res", Tid: 1, Op: "deref", Out: derefOutcome(v, oe)})
+		}
+		back := make(chan struct{})
+		go func() { op(1, "deref", "@f", ctx); close(back) }()
+		select {
+		case <-back:
+		case <-time.After(3 * time.Second):
+			return fmt.Errorf("HANG: a deref with a live context did not return although the future (%s) had delivered its outcome: the outcome was lost by a reader whose context had ended", body)
+		}
 	} else if deterministic {
 		// the model's counterexample to P4/P5 on the original design: the body has delivered
 		// but is held before anything else happens
